@@ -1,4 +1,5 @@
 import Mathlib.Tactic.Ring
+import OpusModel.CeltBandsEnc
 import Mathlib.Tactic.Linarith
 /-
   OpusProofs.CeltBandsTri — the triangular PDF of `compute_theta` (bands.c:810-848): the decoder's closed-form inverse
@@ -73,11 +74,9 @@ def decFl (qn fm : Nat) : Nat :=
 def decFs (qn fm : Nat) : Nat :=
   if fm < (qn / 2) * (qn / 2 + 1) / 2 then decIt qn fm + 1 else qn + 1 - decIt qn fm
 
-/-- what the encoder codes for `itheta = x` (bands.c:816-822) -/
-def encFl (qn x : Nat) : Nat :=
-  if x ≤ qn / 2 then x * (x + 1) / 2 else (qn / 2 + 1) * (qn / 2 + 1) - (qn + 1 - x) * (qn + 2 - x) / 2
-
-def encFs (qn x : Nat) : Nat := if x ≤ qn / 2 then x + 1 else qn + 1 - x
+/-- what the encoder codes for `itheta = x` (bands.c:816-822): the encoder model's own functions -/
+abbrev encFl (qn x : Nat) : Nat := Opus.CeltBandsEnc.triFl qn x
+abbrev encFs (qn x : Nat) : Nat := Opus.CeltBandsEnc.triFs qn x
 
 /-- **The triangular PDF is decoded correctly**: for an even `qn`, `x ≤ qn` and every point `fm` of the interval
     `[fl, fl+fs)` the encoder codes for `x`, the decoder finds `x` and recomputes the same interval. -/
@@ -90,7 +89,7 @@ theorem tri_inv (qn x fm : Nat) (heven : qn % 2 = 0) (hx : x ≤ qn) (h1 : encFl
   -- the decoder's formulas only depend on `decIt`; reduce everything to `decIt = x`
   suffices hit : decIt (2 * h) fm = x by
     refine ⟨hit, ?_, ?_⟩
-    · unfold decFl encFl
+    · unfold decFl encFl Opus.CeltBandsEnc.triFl
       rw [hit, hh]
       by_cases hxh : x ≤ h
       · rw [if_pos hxh]
@@ -98,7 +97,7 @@ theorem tri_inv (qn x fm : Nat) (heven : qn % 2 = 0) (hx : x ≤ qn) (h1 : encFl
         · rw [if_pos hb]
         · rw [if_neg hb]
           -- x = h
-          unfold encFl encFs at h2
+          unfold encFl encFs Opus.CeltBandsEnc.triFl Opus.CeltBandsEnc.triFs at h2
           rw [hh, if_pos hxh, if_pos hxh] at h2
           have e1 : x * (x + 1) / 2 = T x := rfl
           have e2 : h * (h + 1) / 2 = T h := rfl
@@ -117,7 +116,7 @@ theorem tri_inv (qn x fm : Nat) (heven : qn % 2 = 0) (hx : x ≤ qn) (h1 : encFl
           rw [e3, hft, e1]; omega
       · rw [if_neg hxh]
         have hb : ¬ fm < h * (h + 1) / 2 := by
-          unfold encFl at h1
+          unfold encFl Opus.CeltBandsEnc.triFl at h1
           rw [hh, if_neg hxh] at h1
           have e2 : h * (h + 1) / 2 = T h := rfl
           have e4 : (2 * h + 1 - x) * (2 * h + 2 - x) / 2 = T (2 * h + 1 - x) := by
@@ -127,14 +126,14 @@ theorem tri_inv (qn x fm : Nat) (heven : qn % 2 = 0) (hx : x ≤ qn) (h1 : encFl
           have := T_mono (show 2 * h + 1 - x ≤ h by omega)
           omega
         rw [if_neg hb]
-    · unfold decFs encFs
+    · unfold decFs encFs Opus.CeltBandsEnc.triFs
       rw [hit, hh]
       by_cases hxh : x ≤ h
       · rw [if_pos hxh]
         by_cases hb : fm < h * (h + 1) / 2
         · rw [if_pos hb]
         · rw [if_neg hb]
-          unfold encFl encFs at h2
+          unfold encFl encFs Opus.CeltBandsEnc.triFl Opus.CeltBandsEnc.triFs at h2
           rw [hh, if_pos hxh, if_pos hxh] at h2
           have e1 : x * (x + 1) / 2 = T x := rfl
           have e2 : h * (h + 1) / 2 = T h := rfl
@@ -148,7 +147,7 @@ theorem tri_inv (qn x fm : Nat) (heven : qn % 2 = 0) (hx : x ≤ qn) (h1 : encFl
           omega
       · rw [if_neg hxh]
         have hb : ¬ fm < h * (h + 1) / 2 := by
-          unfold encFl at h1
+          unfold encFl Opus.CeltBandsEnc.triFl at h1
           rw [hh, if_neg hxh] at h1
           have e2 : h * (h + 1) / 2 = T h := rfl
           have e4 : (2 * h + 1 - x) * (2 * h + 2 - x) / 2 = T (2 * h + 1 - x) := by
@@ -163,8 +162,8 @@ theorem tri_inv (qn x fm : Nat) (heven : qn % 2 = 0) (hx : x ≤ qn) (h1 : encFl
   rw [hh]
   have e2 : h * (h + 1) / 2 = T h := rfl
   rw [e2]
-  unfold encFl at h1
-  unfold encFl encFs at h2
+  unfold encFl Opus.CeltBandsEnc.triFl at h1
+  unfold encFl encFs Opus.CeltBandsEnc.triFl Opus.CeltBandsEnc.triFs at h2
   rw [hh] at h1 h2
   by_cases hxh : x ≤ h
   · rw [if_pos hxh] at h1 h2
